@@ -174,6 +174,10 @@ func (c *Config) Validate() error {
 		return err
 	}
 
+	if c.ShutdownWaitBeforePeriod < 0 {
+		return fmt.Errorf("%q must not be negative", ShutdownWaitBeforePeriod)
+	}
+
 	if c.ShutdownGracefulPeriod <= c.ShutdownWaitBeforePeriod {
 		return fmt.Errorf("%q must be greater than %q", ShutdownGracefulPeriod, ShutdownWaitBeforePeriod)
 	}
